@@ -64,6 +64,27 @@ where
       else cw0
     .ok (chosen, chosen.map fun bi => cw1.getD (bi - 1) none)
 
+/-- refusals of a user band selection, in the order they are tested -/
+inductive BandRefusal | outOfRange | alphaOrMask deriving Repr, DecidableEq
+/-- the order in which `_get_band_info` settles on the bands to use -/
+inductive BandChoice | userBands | reflectanceBands | nonAlphaBands | fail deriving Repr, DecidableEq
+/-- the RGB default branch (only for files with exactly three candidate bands) -/
+inductive RgbStep | keepExistingWavelength | fromColorInterp | allThreeMissingAssumeRgbInFileOrder deriving Repr, DecidableEq
+
+def bandRefusalsModel : List BandRefusal := [.outOfRange, .alphaOrMask]
+def bandChoiceModel : List BandChoice := [.userBands, .reflectanceBands, .nonAlphaBands, .fail]
+def rgbStepsModel : List RgbStep := [.keepExistingWavelength, .fromColorInterp, .allThreeMissingAssumeRgbInFileOrder]
+
+/-- candidate band of `_get_band_info`: not alpha and not a geedim `*_MASK` / `*_DIST` band -/
+def BandMeta.candidate (b : BandMeta) : Bool := !b.alpha && !b.maskDescr
+
+/-- `utils.get_nonalpha_bands`: 1-based indices of the bands that are not alpha -/
+def nonAlphaBands (isAlpha : List Bool) : List Nat :=
+  ((List.range isAlpha.length).filter fun bi => !(isAlpha.getD bi false)).map (· + 1)
+
+def colorName : ColorInterp → String
+  | .red => "red" | .green => "green" | .blue => "blue" | .other => "other"
+
 /-- relative distance `|s - r| / s`; `none` (NaN, masked) when either wavelength is missing or `s = 0` gives inf/NaN -/
 def relDist (s r : Option Rat) : Option Rat :=
   match s, r with
